@@ -125,7 +125,13 @@ def aggregate(results):
                 a["unresolved"] = True
                 continue
             a["calls"] += c["calls"]
-            a["lines_hit"] = max(a["lines_hit"], c["lines_hit"])
+            if "hit" in c:
+                hit = set(a.pop("_hit", ())) | set(c["hit"])
+                a["_hit"] = hit
+                a["lines_hit"] = len(hit)
+                a["lines_never_executed"] = sorted(set(c.get("body", ())) - hit)
+            else:
+                a["lines_hit"] = max(a["lines_hit"], c["lines_hit"])
         if ex.get("harness_errors"):
             agg["extra"].extend(ex["harness_errors"][:2])
         for k, v in ex.items():
@@ -254,7 +260,7 @@ def main(argv=None):
                     "pop_policies": dict(agg["pops"]),
                     "perturbers_attached": dict(agg["attached"]),
                 },
-                "anchor_coverage": agg["anchor"],
+                "anchor_coverage": {q: {k: v for k, v in a.items() if k != "_hit"} for q, a in agg["anchor"].items()},
                 "inconclusive": dict(agg["inconclusive"]),
                 "gates": gates,
                 "gate_failures": reasons,
